@@ -87,6 +87,7 @@ pub struct Runner {
     pub state_changing_ops: u64,
     pub ext: crate::oracles::OracleState,
     pub in_second_chance: bool,
+    pub ext_c06_compared: u64,
 }
 
 pub fn load_csrs() -> Vec<Bytes> {
@@ -123,6 +124,7 @@ impl Runner {
             state_changing_ops: 0,
             ext: Default::default(),
             in_second_chance: false,
+            ext_c06_compared: 0,
         }
     }
 
@@ -445,6 +447,9 @@ impl Runner {
                 match self.world.insts[inst].start() {
                     Ok(()) => {
                         self.stat("restart");
+                        if self.oracles.c06 {
+                            crate::c06::check(self);
+                        }
                         crate::oracles::after_restart(self, inst);
                         "ok".into()
                     }
